@@ -3,6 +3,8 @@ import Ovldverif.Spec.Runs
 import Ovldverif.Lemmas.LevelsStatic
 import Ovldverif.Lemmas.RankCore
 import Ovldverif.Lemmas.FnInv
+import Ovldverif.Lemmas.PlanOK
+import Ovldverif.Lemmas.C02Core
 /-!
 # C02 — static resolution follows the documented priority-then-specificity rule
 
@@ -21,7 +23,10 @@ theorem C02_partial (cfg : Cfg) (ms : List Meth) (wf : cfg.H.WF) (anti : cfg.H.A
     (k : Key) (hk : keyWF k = true) (hne : k ≠ [])
     (hcc : candComparable cfg.H ms k = true) (htie : sigTieOK cfg.H ms k = true) :
     specAgrees (pureLookup (plan cfg ms) (none, k)) (specResolve cfg.H ms k) := by
-  sorry
+  have _ := htw  -- `tableWF` is not needed by the proof (kept: it is part of the claim's scope)
+  unfold keyWF at hk
+  rw [Bool.and_eq_true] at hk
+  exact pure_agrees cfg ms wf anti hd.ids hst k (List.all_eq_true.mp hk.2) hne hcc htie
 
 /-- ... hence so does the real table after any history of lookups (with C04) -/
 theorem C02_table (cfg : Cfg) (ms : List Meth) (wf : cfg.H.WF) (anti : cfg.H.Antisym)
@@ -30,6 +35,15 @@ theorem C02_table (cfg : Cfg) (ms : List Meth) (wf : cfg.H.WF) (anti : cfg.H.Ant
     (hcc : candComparable cfg.H ms k = true) (htie : sigTieOK cfg.H ms k = true)
     (hist : List (CKey Key)) :
     specAgrees (((MMap.fresh ms).runLookups cfg hist).lookup cfg (none, k)).2 (specResolve cfg.H ms k) := by
-  sorry
+  have ok := plan_ok cfg ms hd.ids hd.codes
+  have h0 := MMap.fresh_inv cfg ms
+  have h1 := (MMap.runLookups_inv cfg ms _ ok hist _ h0).1
+  rw [(MMap.lookup_spec cfg ms _ ok _ h1 (none, k)).1]
+  obtain ⟨a, k', rfl⟩ : ∃ a k', k = a :: k' := by
+    cases k with
+    | nil => exact absurd rfl hne
+    | cons a b => exact ⟨a, b, rfl⟩
+  rw [MMap.pure_cons]
+  exact C02_partial cfg ms wf anti hd hst htw _ hk hne hcc htie
 
 end Ovld
